@@ -14,6 +14,9 @@ CONSTANTS
   FixNullRequired = FALSE
   HasValidator = TRUE
   NilPointerSkipsValidation = TRUE
+  CtxChoices = {"live"}
+  GateChoices = {FALSE}
+  SilentOnCtx = {}
 INIT Init
 NEXT Next
 VIEW view
